@@ -132,12 +132,12 @@ func (r *gatewayController) buildDesiredHTTPRoute(rules []gatewayv1beta1.HTTPRou
 	if weight != nil && *weight == -1 {
 		for i := range rules {
 			rule := rules[i]
-			_, canaryRef := getServiceBackendRef(rule, r.conf.CanaryService)
-			filterOutServiceBackendRef(&rule, r.conf.CanaryService)
-			_, stableRef := getServiceBackendRef(rule, r.conf.StableService)
+			_, canaryRef := getServiceBackendRef(rule, r.conf.Namespace, r.conf.CanaryService)
+			filterOutServiceBackendRef(&rule, r.conf.Namespace, r.conf.CanaryService)
+			_, stableRef := getServiceBackendRef(rule, r.conf.Namespace, r.conf.StableService)
 			if stableRef != nil {
 				stableRef.Weight = utilpointer.Int32(1)
-				setServiceBackendRef(&rule, *stableRef)
+				setServiceBackendRef(&rule, r.conf.Namespace, *stableRef)
 			}
 			// only a rule generated for the canary is dropped; a backend-less rule of the user (e.g. a redirect) stays
 			if canaryRef == nil || len(rule.BackendRefs) != 0 {
@@ -165,16 +165,16 @@ func (r *gatewayController) buildCanaryHeaderHttpRoutes(rules []gatewayv1beta1.H
 	})
 	for i := range rules {
 		rule := rules[i]
-		_, stableRef := getServiceBackendRef(rule, r.conf.StableService)
-		if _, canaryRef := getServiceBackendRef(rule, r.conf.CanaryService); canaryRef != nil {
+		_, stableRef := getServiceBackendRef(rule, r.conf.Namespace, r.conf.StableService)
+		if _, canaryRef := getServiceBackendRef(rule, r.conf.Namespace, r.conf.CanaryService); canaryRef != nil {
 			if stableRef == nil {
 				// canary rule generated by an earlier match step: rebuilt below
 				continue
 			}
 			// rule of the user that an earlier weight step has split: undo the split, keep the rule
-			filterOutServiceBackendRef(&rule, r.conf.CanaryService)
+			filterOutServiceBackendRef(&rule, r.conf.Namespace, r.conf.CanaryService)
 			stableRef.Weight = utilpointer.Int32(1)
-			setServiceBackendRef(&rule, *stableRef)
+			setServiceBackendRef(&rule, r.conf.Namespace, *stableRef)
 		}
 		desired = append(desired, rule)
 		if stableRef == nil {
@@ -182,7 +182,7 @@ func (r *gatewayController) buildCanaryHeaderHttpRoutes(rules []gatewayv1beta1.H
 		}
 		// according to stable rule to create canary rule
 		canaryRule := rule.DeepCopy()
-		_, canaryRef := getServiceBackendRef(*canaryRule, r.conf.StableService)
+		_, canaryRef := getServiceBackendRef(*canaryRule, r.conf.Namespace, r.conf.StableService)
 		canaryRef.Name = gatewayv1beta1.ObjectName(r.conf.CanaryService)
 		canaryRule.BackendRefs = []gatewayv1beta1.HTTPBackendRef{*canaryRef}
 		// set canary headers in httpRoute
@@ -227,8 +227,8 @@ func (r *gatewayController) buildCanaryWeightHttpRoutes(rules []gatewayv1beta1.H
 	var desired []gatewayv1beta1.HTTPRouteRule
 	for i := range rules {
 		rule := rules[i]
-		_, stableRef := getServiceBackendRef(rule, r.conf.StableService)
-		_, canaryRef := getServiceBackendRef(rule, r.conf.CanaryService)
+		_, stableRef := getServiceBackendRef(rule, r.conf.Namespace, r.conf.StableService)
+		_, canaryRef := getServiceBackendRef(rule, r.conf.Namespace, r.conf.CanaryService)
 		if stableRef == nil {
 			// a rule that only targets the canary Service was generated by an earlier match step: drop it
 			if canaryRef == nil {
@@ -243,8 +243,8 @@ func (r *gatewayController) buildCanaryWeightHttpRoutes(rules []gatewayv1beta1.H
 		stableWeight, canaryWeight := generateCanaryWeight(*weight)
 		stableRef.Weight = &stableWeight
 		canaryRef.Weight = &canaryWeight
-		setServiceBackendRef(&rule, *stableRef)
-		setServiceBackendRef(&rule, *canaryRef)
+		setServiceBackendRef(&rule, r.conf.Namespace, *stableRef)
+		setServiceBackendRef(&rule, r.conf.Namespace, *canaryRef)
 		desired = append(desired, rule)
 	}
 	return desired
@@ -258,21 +258,23 @@ func generateCanaryWeight(canaryPercent int32) (stableWeight int32, canaryWeight
 }
 
 // int indicates ref index
-func getServiceBackendRef(rule gatewayv1beta1.HTTPRouteRule, serviceName string) (int, *gatewayv1beta1.HTTPBackendRef) {
+// only a core-group Service of the route's own namespace can be the stable or canary Service
+func getServiceBackendRef(rule gatewayv1beta1.HTTPRouteRule, namespace, serviceName string) (int, *gatewayv1beta1.HTTPBackendRef) {
 	for i := range rule.BackendRefs {
 		ref := rule.BackendRefs[i]
-		if ref.Kind != nil && *ref.Kind == "Service" && string(ref.Name) == serviceName {
+		if ref.Kind != nil && *ref.Kind == "Service" && string(ref.Name) == serviceName &&
+			(ref.Group == nil || *ref.Group == "") && (ref.Namespace == nil || string(*ref.Namespace) == namespace) {
 			return i, &ref
 		}
 	}
 	return 0, nil
 }
 
-func setServiceBackendRef(rule *gatewayv1beta1.HTTPRouteRule, ref gatewayv1beta1.HTTPBackendRef) {
+func setServiceBackendRef(rule *gatewayv1beta1.HTTPRouteRule, namespace string, ref gatewayv1beta1.HTTPBackendRef) {
 	if ref.Kind == nil || *ref.Kind != "Service" {
 		return
 	}
-	index, currentRef := getServiceBackendRef(*rule, string(ref.Name))
+	index, currentRef := getServiceBackendRef(*rule, namespace, string(ref.Name))
 	if currentRef == nil {
 		rule.BackendRefs = append(rule.BackendRefs, ref)
 		return
@@ -288,8 +290,8 @@ func setServiceBackendRef(rule *gatewayv1beta1.HTTPRouteRule, ref gatewayv1beta1
 	}
 }
 
-func filterOutServiceBackendRef(rule *gatewayv1beta1.HTTPRouteRule, serviceName string) {
-	index, ref := getServiceBackendRef(*rule, serviceName)
+func filterOutServiceBackendRef(rule *gatewayv1beta1.HTTPRouteRule, namespace, serviceName string) {
+	index, ref := getServiceBackendRef(*rule, namespace, serviceName)
 	if ref == nil {
 		return
 	}
